@@ -600,6 +600,174 @@ Proof.
   rewrite spec_from_nth. fold (last_handle pre). rewrite Hh. reflexivity.
 Qed.
 
+(* ---------- every connection, also a replaced one: run = history account ---------- *)
+Lemma hist_from_app t evs a b :
+  hist_from t evs (a ++ b) = let '(t1, e1) := hist_from t evs a in hist_from t1 e1 b.
+Proof.
+  revert t evs; induction a as [|x r IH]; intros t evs; cbn [app hist_from]; [reflexivity|].
+  destruct (hist_step t x) as [t' e]. apply IH.
+Qed.
+
+Lemma hist_from_snoc t evs ls l :
+  hist_from t evs (ls ++ [l]) =
+  let '(t1, e1) := hist_from t evs ls in let '(t2, e) := hist_step t1 l in (t2, e1 ++ e).
+Proof.
+  rewrite hist_from_app. destruct (hist_from t evs ls) as [t1 e1]. cbn [hist_from].
+  destruct (hist_step t1 l) as [t2 e]. reflexivity.
+Qed.
+
+Lemma map_upd_put k f h cs :
+  (forall c, c_handler (f c) = h) -> map c_handler (upd k f cs) = set_nth k h (map c_handler cs).
+Proof.
+  intros Hf. revert k; induction cs as [|c r IH]; intros [|k]; cbn [upd map set_nth]; try reflexivity.
+  - rewrite Hf. reflexivity.
+  - rewrite IH. reflexivity.
+Qed.
+
+Lemma map_upd_keep k f cs :
+  (forall c, c_handler (f c) = c_handler c) -> map c_handler (upd k f cs) = map c_handler cs.
+Proof.
+  intros Hf. revert k; induction cs as [|c r IH]; intros [|k]; cbn [upd map]; try reflexivity.
+  - rewrite Hf. reflexivity.
+  - rewrite IH. reflexivity.
+Qed.
+
+Definition agree (s : sys) (t : hist) : Prop :=
+  rc_handler s = h_reg t /\ cur s = h_cur t /\ map c_handler (clients s) = h_inst t.
+
+Lemma do_handle_agree s t h : agree s t -> agree (do_handle faithful s h) (hist_handle t h).
+Proof.
+  intros (Hr & Hc & Hm). unfold agree, do_handle, hist_handle. cbn. rewrite <- Hc, <- Hm.
+  repeat split. destruct (cur s) as [k|]; [|reflexivity].
+  apply map_upd_put. reflexivity.
+Qed.
+
+Lemma on_client_keep_agree s t k en f evs s' e :
+  agree s t -> on_client s k en f evs = Next s' e ->
+  (forall c, c_handler (f c) = c_handler c) -> agree s' t.
+Proof.
+  intros (Hr & Hc & Hm) H Hf. apply on_client_inv in H as (c & _ & _ & -> & _).
+  unfold agree. cbn. rewrite map_upd_keep by exact Hf. repeat split; assumption.
+Qed.
+
+Lemma step_agree s t l s' e :
+  agree s t -> step s l = Next s' e -> agree s' (fst (hist_step t l)).
+Proof.
+  intros A H. destruct l;
+    try (apply inbound_handle_inv in H as (c & hh & _ & _ & _ & -> & _); apply do_handle_agree; exact A);
+    unfold step, step_gen in H; cbn in H; cbn [hist_step fst].
+  - injection H as <- _. apply do_handle_agree; exact A.
+  - injection H as <- _. destruct A as (Hr & Hc & Hm). unfold agree. cbn.
+    rewrite map_app, Hm. repeat split; assumption.
+  - destruct (nth_error (clients s) k) as [c|]; [|discriminate].
+    destruct (is_fresh (c_phase c)); [|discriminate]. injection H as <- _.
+    destruct A as (Hr & Hc & Hm). unfold agree. cbn. repeat split; assumption.
+  - destruct A as (Hr & Hc & Hm). destruct (cur s) as [k|] eqn:Ec; [|discriminate].
+    apply on_client_inv in H as (c & _ & _ & -> & _). rewrite <- Hc.
+    unfold agree. cbn. rewrite <- Hr, <- Hm. repeat split; try assumption.
+    apply map_upd_put. reflexivity.
+  - eapply on_client_keep_agree; [exact A|exact H|reflexivity].
+  - eapply on_client_keep_agree; [exact A|exact H|reflexivity].
+  - eapply on_client_keep_agree; [exact A|exact H|reflexivity].
+  - eapply on_client_keep_agree; [exact A|exact H|reflexivity].
+  - eapply on_client_keep_agree; [exact A|exact H|reflexivity].
+Qed.
+
+(* the handler a reader finds = the one the history entitles the message to *)
+Lemma found_is_entitled s t k c :
+  inv s -> agree s t -> nth_error (clients s) k = Some c -> reader_runs (c_phase c) = true ->
+  c_handler c = entitled t k.
+Proof.
+  intros I (Hr & Hc & Hm) Hn Hrun. unfold entitled, installed. rewrite <- Hc, <- Hm, <- Hr.
+  assert (Hi : match nth_error (map c_handler (clients s)) k with Some x => x | None => None end = c_handler c).
+  { rewrite nth_error_map, Hn. reflexivity. }
+  destruct (cur s) as [k'|] eqn:Ec; [|symmetry; exact Hi].
+  destruct (Nat.eqb k k') eqn:E; [|symmetry; exact Hi].
+  apply Nat.eqb_eq in E. subst k'. apply (I k c Ec Hn).
+  destruct (c_phase c); try discriminate; reflexivity.
+Qed.
+
+Lemma step_events_hist s t l s' e :
+  inv s -> agree s t -> step s l = Next s' e -> e = snd (hist_step t l).
+Proof.
+  intros I A H. apply step_events in H. destruct l; cbn [hist_step snd]; try exact H.
+  - destruct H as (c & Hn & Hr & ->). rewrite (found_is_entitled s t k c I A Hn Hr). reflexivity.
+  - destruct H as (c & Hn & Hr & _ & ->). rewrite (found_is_entitled s t k c I A Hn Hr). reflexivity.
+Qed.
+
+Lemma run_hist ls : forall s evs,
+  run ls = Next s evs -> agree s (hist_of ls) /\ evs = spec_every ls.
+Proof.
+  induction ls as [|l ls IH] using rev_ind; intros s evs H.
+  - injection H as <- <-. repeat split.
+  - unfold run, run_gen in H. rewrite run_from_snoc in H.
+    destruct (run_from faithful init [] ls) as [s1 evs1| | |] eqn:R; try discriminate.
+    destruct (IH s1 evs1 R) as (A & ->).
+    destruct (run_state ls s1 _ R) as (I & _).
+    destruct (step_gen faithful s1 l) as [s2 e| | |] eqn:S; try discriminate.
+    injection H as <- <-. fold (step s1 l) in S.
+    unfold hist_of, spec_every in *. rewrite hist_from_snoc.
+    destruct (hist_from hist_init [] ls) as [t1 e1] eqn:Eh. cbn [fst snd] in *.
+    pose proof (step_agree _ _ _ _ _ A S) as A2.
+    pose proof (step_events_hist _ _ _ _ _ I A S) as E2.
+    destruct (hist_step t1 l) as [t2 e2]. cbn [fst snd] in *. subst e2. split; [exact A2|reflexivity].
+Qed.
+
+(* every message on every connection, current or replaced, in any schedule *)
+Lemma delivery_every ls s evs : run ls = Next s evs -> evs = spec_every ls.
+Proof. intros H. apply (run_hist ls s evs H). Qed.
+
+Lemma spec_every_nth pre k m post :
+  nth_error (spec_every (pre ++ B_inbound k m :: post)) (length (spec_every pre)) =
+  Some (Deliver k m (entitled (hist_of pre) k)).
+Proof.
+  unfold spec_every, hist_of. rewrite hist_from_app.
+  destruct (hist_from hist_init [] pre) as [t1 e1]. cbn [fst snd hist_from hist_step].
+  assert (G : forall t evs ls, exists x, snd (hist_from t evs ls) = evs ++ x).
+  { intros t evs ls; revert t evs; induction ls as [|y r IH]; intros t evs; cbn [hist_from].
+    - exists []. rewrite app_nil_r. reflexivity.
+    - destruct (hist_step t y) as [t' e]. destruct (IH t' (evs ++ e)) as [x ->].
+      exists (e ++ x). rewrite app_assoc. reflexivity. }
+  destruct (G t1 (e1 ++ [Deliver k m (entitled t1 k)]) post) as [x ->].
+  rewrite <- app_assoc, nth_error_app2 by lia. rewrite Nat.sub_diag. reflexivity.
+Qed.
+
+(* a message on ANY connection k — also one that SetClient has already replaced but that is still
+   open — is handed to the handler the history left on k; it is not dropped *)
+Lemma delivery_any_connection pre k m post s evs :
+  run (pre ++ B_inbound k m :: post) = Next s evs ->
+  nth_error evs (count_inbound pre) = Some (Deliver k m (entitled (hist_of pre) k)).
+Proof.
+  intros H. pose proof (delivery_every _ _ _ H) as ->.
+  destruct (run_prefix _ _ _ _ H) as (s1 & evs1 & R & _).
+  destruct (run_state _ _ _ R) as (_ & _ & _ & Hlen).
+  rewrite (delivery_every _ _ _ R) in Hlen. rewrite <- Hlen. apply spec_every_nth.
+Qed.
+
+(* what a replaced client was left with does not change any more: one further label of any kind
+   leaves [installed_of _ k] alone unless k is the current client (or is only now being dialled) *)
+Lemma nth_set_nth_other k j h l : j <> k -> nth_error (set_nth k h l) j = nth_error l j.
+Proof.
+  revert k j; induction l as [|x r IH]; intros [|k] [|j] H; cbn [set_nth nth_error]; try reflexivity.
+  - contradiction.
+  - apply IH. intros ->. apply H. reflexivity.
+Qed.
+
+Lemma replaced_frozen ls l k :
+  h_cur (hist_of ls) <> Some k -> (k < length (h_inst (hist_of ls)))%nat ->
+  installed_of (ls ++ [l]) k = installed_of ls k.
+Proof.
+  unfold installed_of, hist_of. rewrite hist_from_snoc.
+  destruct (hist_from hist_init [] ls) as [t1 e1]. cbn [fst]. intros Hc Hk.
+  assert (Hh : forall h, installed (hist_handle t1 h) k = installed t1 k).
+  { intros h. unfold installed, hist_handle. cbn. destruct (h_cur t1) as [k'|]; [|reflexivity].
+    rewrite nth_set_nth_other; [reflexivity|]. intros ->. apply Hc. reflexivity. }
+  destruct l; cbn [hist_step fst]; try reflexivity; try apply Hh.
+  - unfold installed. cbn. rewrite nth_error_app1 by exact Hk. reflexivity.
+  - unfold installed. destruct (h_cur t1) as [k'|]; [|reflexivity]. cbn.
+    rewrite nth_set_nth_other; [reflexivity|]. intros ->. apply Hc. reflexivity.
+Qed.
+
 (* ---------- the Go panic ---------- *)
 (* RetryClient.Connect panics (nil *BaseClient) exactly when no SetClient happened before *)
 Lemma connect_panics_iff_no_client ls s evs :
